@@ -75,6 +75,16 @@ Proof.
 Qed.
 Print Assumptions c06_nodes_round.
 
+(* the bounds above are upper bounds; conversely NO entry is lost: a name that entered the
+   outstanding set (existing id, or a run()/sbatch that returned GOOD) stays outstanding until it has
+   been seen complete - so the ids a round persists cover every batch that may still be active *)
+Theorem c06_no_lost_entry : forall depth existing ops n,
+  let s := run_ops depth (init existing) ops in
+  In n existing \/ (exists j blk k, In (EvRun j blk true k) (q_log s) /\ j_name j = n) ->
+  In n (map e_name (q_out s)) \/ exists rc, In (EvComplete n rc) (q_log s).
+Proof. exact queue_no_lost_entry. Qed.
+Print Assumptions c06_no_lost_entry.
+
 (* ---- contracts exported to C02 ---- *)
 Theorem c06_aux_queue_runs_only_unblocked : forall depth existing ops j blk ok n,
   In (EvRun j blk ok n) (q_log (run_ops depth (init existing) ops)) -> blk = [].
